@@ -31,13 +31,31 @@ class _Out(io.StringIO):
         return False
 
 
+class _PipeIn(io.StringIO):
+    """standard input fed by a pipe: readable, not seekable, not a tty"""
+    name = '<stdin>'
+    mode = 'r'
+
+    def seekable(self):
+        return False
+
+    def seek(self, *a):
+        raise io.UnsupportedOperation('underlying stream is not seekable')
+
+    def tell(self):
+        raise io.UnsupportedOperation('underlying stream is not seekable')
+
+    def isatty(self):
+        return False
+
+
 def run_main(tool, argv, stdin_text=''):
     import cnfgen.clitools.msg as msg
     mod = sys.modules['cnfgen.clitools.' + tool]
     out, err = _Out(), _Out()
     saved = (sys.argv, sys.stdout, sys.stderr, sys.stdin, mod.setup_SIGINT)
     sys.argv = [tool] + [str(a) for a in argv]
-    sys.stdout, sys.stderr, sys.stdin = out, err, io.StringIO(stdin_text)
+    sys.stdout, sys.stderr, sys.stdin = out, err, _PipeIn(stdin_text)
     mod.setup_SIGINT = lambda: None        # stub: no signal handler is installed during the analysis
     msg._prefix = ''
     code = 0
@@ -1903,7 +1921,8 @@ def h_t_t72_pbgen(a: int, b: int, c: int, extra: int) -> bool:
 # ------------------------------------------------------- the two file based tools and malformed input files
 DIMACS_TEXTS = ['p cnf 2 1\n1 -2 0\n', '', 'p cnf 2 2\n1 0\n', 'p cnf 1 1\n2 0\n', 'garbage\n', 'p cnf 0 0\n', 'c only a comment\n', 'p cnf 2 1\n1 x 0\n',
                 'p cnf 1 1\n\n1 0\n\n']
-KTH_TEXTS = ['3\n1 : 0\n2 : 0\n3 : 1 2 0\n', '', '2\n2 : 1 0\n1 : 0\n', '2\n1 : 2 0\n2 : 0\n', 'x\n', '0\n', '2\n1 : 3 0\n', '2\n1 : 0\n1 : 0\n', 'c c\n1\n1 : 0\n']
+KTH_TEXTS = ['3\n1 : 0\n2 : 0\n3 : 1 2 0\n', '', '2\n2 : 1 0\n1 : 0\n', '2\n1 : 2 0\n2 : 0\n', 'x\n', '0\n', '2\n1 : 3 0\n', '2\n1 : 0\n1 : 0\n', 'c c\n1\n1 : 0\n',
+             '2\n1 : 0\n2 :\n', '2\n1 : 0\n2 : 1\n', '2\n: 1 0\n', '1\n1 : : 0\n']
 OPTS = [[], ['-q'], ['-p'], ['-v', '-c'], ['--seed', 0], ['--seed', 'abc'], ['--nosuchoption'], ['-h'], ['-o'], ['-i'], ['xor', 2], ['xor'], ['lift', 0], ['extra']]
 
 
@@ -1944,13 +1963,13 @@ def h_e_cnfshuffle(ti: int, oi: int, via_stdin: bool) -> bool:
 
 def h_e_kthlist2pebbling(ti: int, oi: int, via_stdin: bool) -> bool:
     """
-    pre: 0 <= ti <= 8 and 0 <= oi <= 13
+    pre: 0 <= ti <= 12 and 0 <= oi <= 13
     post: _
     """
     oo = pick(oi, 0, 13)
     if oo in (2, 3, 4, 5):
         return True
-    return untraced(_filetool, 'kthlist2pebbling', pick(ti, 0, 8), oo, pickb(via_stdin))
+    return untraced(_filetool, 'kthlist2pebbling', pick(ti, 0, 12), oo, pickb(via_stdin))
 
 
 def _graphfiles(kind, ti, fmt_i):
@@ -1964,7 +1983,7 @@ def _graphfiles(kind, ti, fmt_i):
     fmts = [('kcolor', 'simple', 'kthlist'), ('kcolor', 'simple', 'dimacs'), ('kcolor', 'simple', 'gml'), ('php', 'bipartite', 'matrix'),
             ('php', 'bipartite', 'kthlist'), ('peb', 'dag', 'kthlist'), ('peb', 'dag', 'dimacs'), ('php', 'bipartite', 'gml')]
     cmd, gt, fmt = fmts[fmt_i]
-    text = texts[fmt][ti]
+    text = texts[fmt][ti % len(texts[fmt])]
     path = os.path.join(DATA, '__virtual__.' + fmt)
 
     def fake_open(name, *a, **k):
@@ -1984,7 +2003,37 @@ def _graphfiles(kind, ti, fmt_i):
 
 def h_e_graphfiles(kind: int, ti: int, fmt_i: int) -> bool:
     """
-    pre: 0 <= kind <= 2 and 0 <= ti <= 8 and 0 <= fmt_i <= 7
+    pre: 0 <= kind <= 2 and 0 <= ti <= 12 and 0 <= fmt_i <= 7
     post: _
     """
-    return untraced(_graphfiles, pick(kind, 0, 2), pick(ti, 0, 8), pick(fmt_i, 0, 7))
+    return untraced(_graphfiles, pick(kind, 0, 2), pick(ti, 0, 12), pick(fmt_i, 0, 7))
+
+
+STDIN_ARGV = [['dimacs'], ['dimacs', '-'], ['-q', 'dimacs'], ['dimacs', '-T', 'xor', 2], ['-of', 'opb', 'dimacs'], ['-of', 'latex', 'dimacs'],
+              ['-q', 'dimacs', '-T', 'shuffle'], ['kcolor', 2, 'kthlist', '-'], ['peb', 'kthlist', '-'], ['php', 'matrix', '-']]
+
+
+def _stdin_tools(tool_i, ai, ti):
+    """formula / graph read from a piped (non seekable) standard input by cnfgen and pbgen"""
+    argv = STDIN_ARGV[ai]
+    if argv[0] in ('kcolor', 'peb'):
+        text = KTH_TEXTS[ti]
+    elif argv[0] == 'php':
+        text = ['2 2\n1 0\n0 1\n', '', '2 2\n1 0\n', 'x\n', '1 1\n1\n', '0 0\n', '1 1\n2\n', '# c\n1 1\n0\n', '2\n'][ti % 9]
+    else:
+        text = DIMACS_TEXTS[ti % len(DIMACS_TEXTS)]
+    tool = ['cnfgen', 'pbgen'][tool_i]
+    if tool == 'pbgen' and '-T' in argv:
+        return True
+    if tool == 'pbgen' and '-of' in argv and argv[1] == 'opb':
+        argv = argv[2:]
+    code, out, err = run_main(tool, argv, stdin_text=text)
+    return classify(tool, argv, code, out, err)
+
+
+def h_e_stdin_tools(tool_i: int, ai: int, ti: int) -> bool:
+    """
+    pre: 0 <= tool_i <= 1 and 0 <= ai <= 9 and 0 <= ti <= 12
+    post: _
+    """
+    return untraced(_stdin_tools, pick(tool_i, 0, 1), pick(ai, 0, 9), pick(ti, 0, 12))
